@@ -41,7 +41,9 @@ FOOTPRINT = {
             ('supp/name.py', ['MultiValue.*', 'CompositeValue.*', 'ImportedName.*'])],
     'C05': ANALYSIS,
     'C06': [COMPAT, ('supp/name.py', ATTRS), ('supp/evaluator.py', ['*']),
-            ('supp/scope.py', ['SourceScope.assigns', 'SourceScope.add_attr_assign', 'ClassScope.*'])],
+            ('supp/scope.py', ['SourceScope.assigns', 'SourceScope.add_attr_assign', 'SourceScope.names', 'SourceScope.exported_names',
+                               'SourceScope.resolve_star_imports', 'ClassScope.*', 'FuncScope.*']),
+            ('supp/module.py', ['*'])],
     'C07': [COMPAT, ('supp/project.py', ['Project.__init__', 'Project.get_path', 'Project.list_packages', 'Project.get_module', 'Project.get_nmodule',
                                  'Project.norm_package', 'Project._package_parts', 'Project._renormed']),
             ('supp/assistant.py', ['list_packages', 'assist']), ('supp/util.py', ['split_pkg', 'join_pkg', '_join_level_pkg'])],
@@ -55,7 +57,7 @@ FOOTPRINT = {
     'C12': ANALYSIS + [('supp/assistant.py', ['assist', 'list_packages']), ('supp/util.py', UTIL_MARK)],
     'C13': ANALYSIS + [('supp/linter.py', ['*'])],
     'C14': [('supp/umsgpack.py', ['*'])],
-    'C15': [COMPAT, ('supp/server.py', ['*']), ('supp/remote.py', ['Environment._call', 'Environment.__getattr__']), ('supp/umsgpack.py', ['*'])],
+    'C15': [COMPAT, ('supp/server.py', ['*']), ('supp/remote.py', ['*']), ('supp/umsgpack.py', ['*'])],
     'C16': [('supp/remote.py', ['*']), ('supp/server.py', ['Server.run', 'Server.__init__'])],
     'C17': [COMPAT, ('supp/name.py', ['MultiName.*', 'UndefinedName.*']), ('supp/scope.py', ['*']), ('supp/merged_dict.py', ['*']),
             ('supp/assistant.py', ['*']), ('supp/linter.py', ['*'])],
